@@ -38,7 +38,7 @@ use tu_verif::run::Run;
 const ALPHA: [&str; 3] = ["a", "b", " "];
 const CONTENT_ALPHA: [&str; 2] = ["a", "b"];
 /// phase I: symbols of 2 and 4 bytes, and a cluster of two code points without a composed form
-const WIDE_ALPHA: [&str; 4] = ["ä", "😀", "x\u{301}", " "];
+const WIDE_ALPHA: [&str; 5] = ["ä", "😀", "x\u{301}", " ", "\u{e0}"];
 const BETAS: [f64; 3] = [0.5, 1.0, 2.0];
 const MODES: [&str; 3] = ["insertions", "deletions", "insertions_and_deletions"];
 const EPS: f64 = 1e-12;
